@@ -145,12 +145,12 @@ class SchemaBuilder:
         finally:
             flow.KEYNODE, versions.VERSION_LOCALS = old, oldv
 
-    def fn_events(self, fid, direction):
+    def fn_events(self, fid, direction, consts=None):
         import versions
         old, oldv = flow.KEYNODE, versions.VERSION_LOCALS
         flow.KEYNODE, versions.VERSION_LOCALS = self.registry, self.vlocals
         try:
-            return self.S[direction].events(fid)
+            return self.S[direction].events(fid, 0, consts)
         finally:
             flow.KEYNODE, versions.VERSION_LOCALS = old, oldv
 
